@@ -389,7 +389,7 @@ structure Inv (j : Jar) : Prop where
   /-- the Morsel's own domain is the key's domain and the key's path is the stripped Morsel path -/
   fields : ∀ e ∈ j.cookies, e.c.domain = e.dom ∧ e.pkey = rstripSlash e.c.path
   /-- one entry per `(domain, path, name)` -/
-  uniq : ∀ e1 ∈ j.cookies, ∀ e2 ∈ j.cookies, e1.key = e2.key → e1 = e2
+  uniq : j.cookies.Pairwise (fun a b => a.key ≠ b.key)
   /-- the Morsel cache is never stale -/
   cache : ∀ k v, aget k j.cache = some v → ∀ e ∈ j.cookies, e.key = k → e.c.value = v
   /-- every recorded deadline is scheduled on the heap -/
@@ -417,6 +417,24 @@ theorem inv_expireCookie (j : Jar) (w : Int) (k : Key) (h : Inv j) : Inv (expire
     · exact List.mem_cons_of_mem _ (h.heap k' w' hk)
 
 /-! ### deletion -/
+
+theorem deleteCookies_cookies_eq (ks : List Key) : ∀ (j : Jar),
+    (deleteCookies j ks).cookies = j.cookies.filter (fun e => !(ks.contains e.key)) := by
+  induction ks with
+  | nil =>
+    intro j
+    simp only [deleteCookies, List.foldl_nil, List.contains_nil, Bool.not_false]
+    exact (List.filter_eq_self.mpr (fun _ _ => rfl)).symm
+  | cons k t ih =>
+    intro j
+    have := ih (deleteOne j k)
+    simp only [deleteCookies, List.foldl_cons] at this ⊢
+    rw [this]
+    simp only [deleteOne, List.filter_filter]
+    apply List.filter_congr
+    intro e _
+    simp only [List.contains_cons, Bool.not_or]
+    exact Bool.and_comm _ _
 
 theorem deleteCookies_cookies (ks : List Key) : ∀ (j : Jar) (e : Entry),
     e ∈ (deleteCookies j ks).cookies ↔ e ∈ j.cookies ∧ e.key ∉ ks := by
@@ -494,8 +512,8 @@ theorem inv_deleteCookies (j : Jar) (ks : List Key) (h : Inv j) : Inv (deleteCoo
   constructor
   · intro e he
     exact h.fields e ((deleteCookies_cookies ks j e).mp he).1
-  · intro e1 h1 e2 h2
-    exact h.uniq e1 ((deleteCookies_cookies ks j e1).mp h1).1 e2 ((deleteCookies_cookies ks j e2).mp h2).1
+  · rw [deleteCookies_cookies_eq]
+    exact h.uniq.filter _
   · intro k v hk e he hek
     rw [deleteCookies_cache] at hk
     split at hk
@@ -549,15 +567,15 @@ theorem dueKeys_due (j : Jar) (now : Int) (k : Key) (h : k ∈ dueKeys j now) :
 
 theorem inv_deleteCookies' (j : Jar) (ks : List Key)
     (hf : ∀ e ∈ j.cookies, e.c.domain = e.dom ∧ e.pkey = rstripSlash e.c.path)
-    (hu : ∀ e1 ∈ j.cookies, ∀ e2 ∈ j.cookies, e1.key = e2.key → e1 = e2)
+    (hu : j.cookies.Pairwise (fun a b => a.key ≠ b.key))
     (hc : ∀ k v, aget k j.cache = some v → ∀ e ∈ j.cookies, e.key = k → e.c.value = v)
     (hh : ∀ k w, k ∉ ks → aget k j.expirations = some w → (w, k) ∈ j.heap) :
     Inv (deleteCookies j ks) := by
   constructor
   · intro e he
     exact hf e ((deleteCookies_cookies ks j e).mp he).1
-  · intro e1 h1 e2 h2
-    exact hu e1 ((deleteCookies_cookies ks j e1).mp h1).1 e2 ((deleteCookies_cookies ks j e2).mp h2).1
+  · rw [deleteCookies_cookies_eq]
+    exact hu.filter _
   · intro k v hk e he hek
     rw [deleteCookies_cache] at hk
     split at hk
@@ -638,5 +656,256 @@ theorem doExpiration_hostOnly_sub (j : Jar) (now : Int) (dn : Str × Str)
   split at h
   · exact h
   · exact ((deleteCookies_hostOnly _ _ dn).mp h).1
+
+
+
+/-! ### storing -/
+
+theorem pairwise_key_eq {l : List Entry} (h : l.Pairwise (fun a b => a.key ≠ b.key))
+    {a b : Entry} (ha : a ∈ l) (hb : b ∈ l) (hk : a.key = b.key) : a = b := by
+  induction l with
+  | nil => simp at ha
+  | cons x t ih =>
+    rw [List.pairwise_cons] at h
+    rcases List.mem_cons.mp ha with rfl | ha' <;> rcases List.mem_cons.mp hb with rfl | hb'
+    · rfl
+    · exact absurd hk (h.1 b hb')
+    · exact absurd hk.symm (h.1 a ha')
+    · exact ih h.2 ha' hb'
+
+theorem mem_putEntry_sub (e x : Entry) (l : List Entry) (h : x ∈ putEntry e l) : x = e ∨ x ∈ l := by
+  induction l with
+  | nil => simp [putEntry] at h; exact Or.inl h
+  | cons a t ih =>
+    simp only [putEntry] at h
+    split at h
+    · rcases List.mem_cons.mp h with h | h
+      · exact Or.inl h
+      · exact Or.inr (List.mem_cons_of_mem _ h)
+    · rcases List.mem_cons.mp h with h | h
+      · exact Or.inr (h ▸ List.mem_cons_self)
+      · rcases ih h with h | h
+        · exact Or.inl h
+        · exact Or.inr (List.mem_cons_of_mem _ h)
+
+theorem mem_putEntry_self (e : Entry) (l : List Entry) : e ∈ putEntry e l := by
+  induction l with
+  | nil => simp [putEntry]
+  | cons a t ih =>
+    simp only [putEntry]
+    split
+    · exact List.mem_cons_self
+    · exact List.mem_cons_of_mem _ ih
+
+theorem mem_putEntry_of_mem (e x : Entry) (l : List Entry) (h : x ∈ l) (hk : x.key ≠ e.key) :
+    x ∈ putEntry e l := by
+  induction l with
+  | nil => simp at h
+  | cons a t ih =>
+    simp only [putEntry]
+    split
+    · next hak =>
+      have hak' : a.key = e.key := by simpa using hak
+      rcases List.mem_cons.mp h with rfl | h
+      · exact absurd hak' hk
+      · exact List.mem_cons_of_mem _ h
+    · rcases List.mem_cons.mp h with rfl | h
+      · exact List.mem_cons_self
+      · exact List.mem_cons_of_mem _ (ih h)
+
+theorem putEntry_pairwise (e : Entry) (l : List Entry) (h : l.Pairwise (fun a b => a.key ≠ b.key)) :
+    (putEntry e l).Pairwise (fun a b => a.key ≠ b.key) := by
+  induction l with
+  | nil => simp [putEntry]
+  | cons a t ih =>
+    rw [List.pairwise_cons] at h
+    simp only [putEntry]
+    split
+    · next hak =>
+      have hak' : a.key = e.key := by simpa using hak
+      rw [List.pairwise_cons]
+      exact ⟨fun b hb => hak' ▸ h.1 b hb, h.2⟩
+    · next hak =>
+      have hak' : a.key ≠ e.key := by simpa using hak
+      rw [List.pairwise_cons]
+      refine ⟨?_, ih h.2⟩
+      intro b hb
+      rcases mem_putEntry_sub e b t hb with rfl | hb
+      · exact hak'
+      · exact h.1 b hb
+
+theorem putEntry_key (e x : Entry) (l : List Entry) (h : l.Pairwise (fun a b => a.key ≠ b.key))
+    (hx : x ∈ putEntry e l) (hk : x.key = e.key) : x = e :=
+  pairwise_key_eq (putEntry_pairwise e l h) hx (mem_putEntry_self e l) hk
+
+theorem inv_storeEntry (j : Jar) (e : Entry) (h : Inv j)
+    (he : e.c.domain = e.dom ∧ e.pkey = rstripSlash e.c.path) : Inv (storeEntry j e) := by
+  unfold storeEntry
+  constructor
+  · intro x hx
+    rcases mem_putEntry_sub e x _ hx with rfl | hx
+    · exact he
+    · exact h.fields x hx
+  · exact putEntry_pairwise e _ h.uniq
+  · intro k v hk x hx hxk
+    simp only [aget_adel] at hk
+    split at hk
+    · cases hk
+    · next hne =>
+      have hne' : e.key ≠ k := by simpa using hne
+      rcases mem_putEntry_sub e x _ hx with rfl | hx
+      · exact absurd hxk hne'
+      · exact h.cache k v hk x hx hxk
+  · exact h.heap
+
+
+/-! ### `update_cookies` -/
+
+/-- the path the cookie is stored with -/
+def effPath (rpath : Str) (r : Raw) : Str :=
+  if r.path.isEmpty || r.path.head? != some 47 then defaultPath rpath else r.path
+
+/-- the Max-Age / Expires stage of the loop body -/
+def expStage (now : Int) (j : Jar) (r : Raw) (k : Key) : Jar :=
+  match r.maxAge with
+  | .val d => expireCookie j (min (now + d) Gen.C16.maxTime) k
+  | .bad => j
+  | .absent =>
+    match r.expires with
+    | .val t => if t = 0 then j else expireCookie j t k
+    | _ => j
+
+def entryOf (rpath : Str) (r : Raw) (domain : Str) : Entry :=
+  ⟨domain, rstripSlash (effPath rpath r), ⟨r.name, r.value, domain, effPath rpath r, r.secure⟩⟩
+
+theorem acceptOne_eq (now : Int) (host : Option Str) (rpath : Str) (j : Jar) (r : Raw) :
+    acceptOne now host rpath j r =
+      if rejected host (normDomain j host r.name r.domain).2 then (normDomain j host r.name r.domain).1
+      else storeEntry
+        (expStage now (normDomain j host r.name r.domain).1 r
+          ((normDomain j host r.name r.domain).2, rstripSlash (effPath rpath r), r.name))
+        (entryOf rpath r (normDomain j host r.name r.domain).2) := by
+  rfl
+
+theorem normDomain_fst (j : Jar) (host : Option Str) (name d : Str) :
+    (normDomain j host name d).1 = j ∨
+      ∃ h, host = some h ∧ (normDomain j host name d).1 = { j with hostOnly := sadd (h, name) j.hostOnly } := by
+  cases host with
+  | none => exact Or.inl rfl
+  | some h =>
+    unfold normDomain
+    dsimp only
+    generalize (if (d.getLast? == some 46) = true then ([] : Str) else d) = d'
+    cases hd : d'.isEmpty
+    · left; simp only [Bool.false_eq_true, if_false]
+    · right; exact ⟨h, rfl, by simp only [if_true]⟩
+
+theorem inv_normDomain (j : Jar) (host : Option Str) (name d : Str) (h : Inv j) :
+    Inv (normDomain j host name d).1 := by
+  rcases normDomain_fst j host name d with h1 | ⟨_, _, h1⟩ <;> rw [h1]
+  · exact h
+  · exact inv_hostOnly j _ h
+
+theorem inv_expStage (now : Int) (j : Jar) (r : Raw) (k : Key) (h : Inv j) : Inv (expStage now j r k) := by
+  unfold expStage
+  split
+  · exact inv_expireCookie _ _ _ h
+  · exact h
+  · split
+    · split
+      · exact h
+      · exact inv_expireCookie _ _ _ h
+    · exact h
+
+theorem inv_acceptOne (now : Int) (host : Option Str) (rpath : Str) (j : Jar) (r : Raw) (h : Inv j) :
+    Inv (acceptOne now host rpath j r) := by
+  rw [acceptOne_eq]
+  split
+  · exact inv_normDomain j host _ _ h
+  · exact inv_storeEntry _ _ (inv_expStage _ _ _ _ (inv_normDomain j host _ _ h)) ⟨rfl, rfl⟩
+
+theorem inv_foldl_acceptOne (now : Int) (host : Option Str) (rpath : Str) (rs : List Raw) :
+    ∀ (j : Jar), Inv j → Inv (rs.foldl (acceptOne now host rpath) j) := by
+  induction rs with
+  | nil => intro j h; exact h
+  | cons r t ih => intro j h; exact ih _ (inv_acceptOne now host rpath j r h)
+
+theorem inv_update (allowIp : Bool) (now : Int) (host : Option Str) (rpath : Str) (j : Jar) (rs : List Raw)
+    (h : Inv j) : Inv (update allowIp now host rpath j rs) := by
+  unfold update
+  split
+  · exact h
+  · exact inv_doExpiration _ _ (inv_foldl_acceptOne now host rpath rs j h)
+
+/-! ### `filter_cookies` -/
+
+theorem assign_spec (j : Jar) (out : List (Str × Str)) (e : Entry) (h : Inv j) (he : e ∈ j.cookies) :
+    (assign (j, out) e).2 = aset e.c.name e.c.value out ∧
+    (assign (j, out) e).1.cookies = j.cookies ∧ (assign (j, out) e).1.hostOnly = j.hostOnly ∧
+    (assign (j, out) e).1.expirations = j.expirations ∧ (assign (j, out) e).1.heap = j.heap ∧
+    Inv (assign (j, out) e).1 := by
+  unfold assign sendValue
+  cases hc : aget e.key j.cache with
+  | some v =>
+    have := h.cache _ _ hc e he rfl
+    subst this
+    exact ⟨rfl, rfl, rfl, rfl, rfl, h⟩
+  | none =>
+    refine ⟨rfl, rfl, rfl, rfl, rfl, ⟨h.fields, h.uniq, ?_, h.heap⟩⟩
+    intro k v hk x hx hxk
+    simp only [aget_aset] at hk
+    split at hk
+    · next hek =>
+      have hek' : e.key = k := by simpa using hek
+      have : x = e := pairwise_key_eq h.uniq hx he (hxk.trans hek'.symm)
+      subst this
+      simp at hk
+      exact hk
+    · exact h.cache k v hk x hx hxk
+
+theorem fold_assign (hs : List Entry) : ∀ (j : Jar) (out : List (Str × Str)), Inv j →
+    (∀ e ∈ hs, e ∈ j.cookies) →
+    (hs.foldl assign (j, out)).1.cookies = j.cookies ∧
+    (hs.foldl assign (j, out)).1.hostOnly = j.hostOnly ∧
+    (hs.foldl assign (j, out)).1.expirations = j.expirations ∧
+    (hs.foldl assign (j, out)).1.heap = j.heap ∧
+    Inv (hs.foldl assign (j, out)).1 ∧
+    (∀ n v, aget n (hs.foldl assign (j, out)).2 = some v →
+      aget n out = some v ∨ ∃ e ∈ hs, e.c.name = n ∧ e.c.value = v) ∧
+    (∀ n, (aget n out).isSome → (aget n (hs.foldl assign (j, out)).2).isSome) ∧
+    (∀ e ∈ hs, (aget e.c.name (hs.foldl assign (j, out)).2).isSome) := by
+  induction hs with
+  | nil => intro j out h _; simp [h]
+  | cons e t ih =>
+    intro j out h hsub
+    have he := hsub e List.mem_cons_self
+    obtain ⟨a2, a3, a4, a5, a6, a7⟩ := assign_spec j out e h he
+    have hsub' : ∀ x ∈ t, x ∈ (assign (j, out) e).1.cookies := by
+      intro x hx; rw [a3]; exact hsub x (List.mem_cons_of_mem _ hx)
+    have := ih (assign (j, out) e).1 (assign (j, out) e).2 a7 hsub'
+    simp only [List.foldl_cons]
+    obtain ⟨b1, b2, b3, b4, b5, b6, b7, b8⟩ := this
+    refine ⟨b1.trans a3, b2.trans a4, b3.trans a5, b4.trans a6, b5, ?_, ?_, ?_⟩
+    · intro n v hv
+      rcases b6 n v hv with h1 | ⟨x, hx, h1⟩
+      · rw [a2, aget_aset] at h1
+        split at h1
+        · next hn =>
+          have hn' : e.c.name = n := by simpa using hn
+          exact Or.inr ⟨e, List.mem_cons_self, hn', by simpa using h1⟩
+        · exact Or.inl h1
+      · exact Or.inr ⟨x, List.mem_cons_of_mem _ hx, h1⟩
+    · intro n hn
+      apply b7
+      rw [a2, aget_aset]
+      split
+      · rfl
+      · exact hn
+    · intro x hx
+      rcases List.mem_cons.mp hx with rfl | hx
+      · apply b7
+        rw [a2, aget_aset]
+        simp
+      · exact b8 x hx
 
 end Aio.C16
